@@ -1,4 +1,6 @@
 CP = 'xenium/reclamation/detail/concurrent_ptr.hpp'
+GPF = 'xenium/reclamation/detail/guard_ptr.hpp'
+GPM = {'get': 'MP_get', 'mark': 'MP_mark'}      # marked_ptr members a guard accessor may use
 MO = [(r'std::memory_order_', 'mo_')]
 def K(name, regex): return dict(name=name, file=CP, regex=regex, subst=MO)
 EXP = [(r'\bexpected\b', '(*expected_p)', 'expected_ref')]
@@ -27,10 +29,9 @@ UNIT = dict(
   drops='templates; marked_ptr is a 64-bit word (unit mp: == is equality of the single pointer-sized member, so the atomic\'s bitwise compare is value equality, '
         'default constructed marked_ptr is the zero word); std::atomic<marked_ptr> is the plain-cell model of xv.h with monitors, compare_exchange replaced by a '
         'harness model that also records weak/strong, the number of arguments and the failure order (xv.h drops it) and lets the weak form fail spuriously; '
-        'guard_ptr is a stub whose get() returns its stored marked_ptr; by-reference `expected` becomes a pointer; volatile/const qualifiers, [[nodiscard]], default arguments '
+        'guard_ptr is its base class detail::guard_ptr (one marked_ptr member) with the real accessors; marked_ptr get()/mark()/bool follow the contract proved in unit mp on a word with XV_MB low mark bits; by-reference `expected` becomes a pointer; volatile/const qualifiers, [[nodiscard]], default arguments '
         '(extracted as constants and checked by cptr.defaults.seq_cst) are dropped',
-  assumptions=['guard_ptr::get() returns the guard\'s marked_ptr and has no other effect (stub; guard algebra is C15 part 2)',
-               'std::atomic<marked_ptr> itself (lock-free 8-byte CAS comparing object representations) is trusted'],
+  assumptions=[               'std::atomic<marked_ptr> itself (lock-free 8-byte CAS comparing object representations) is trusted'],
   consts=[
     K('XV_DFLT_CTOR', r'concurrent_ptr\(const marked_ptr& p = ([^)]*\))\) noexcept'),
     K('XV_DFLT_LOAD', r'marked_ptr load\(std::memory_order order = (std::memory_order_\w+)\) const'),
@@ -42,6 +43,13 @@ UNIT = dict(
     K('XV_DFLT_CES_V', r'bool compare_exchange_strong' + D3 + r'\s*volatile\s*\{'),
   ],
   sources=[
+    # accessors of reclamation::detail::guard_ptr (the base of every reclaimer's guard_ptr): real text over the marked_ptr word contract of unit mp
+    dict(id='gp_get', file=GPF, sig=r'T\* get\(\) const noexcept', c_sig='static uintptr_t gp_get(const struct guard* self)', members=['ptr'], methods=GPM, must_fire={'method:get': 1}),
+    dict(id='gp_mark', file=GPF, sig=r'uintptr_t mark\(\) const noexcept', c_sig='static uintptr_t gp_mark(const struct guard* self)', members=['ptr'], methods=GPM, must_fire={'method:mark': 1}),
+    dict(id='gp_conv', file=GPF, sig=r'operator MarkedPtr\(\) const noexcept', c_sig='static mptr gp_conv(const struct guard* self)', members=['ptr'], methods=GPM, must_fire={'member:ptr': 1}),
+    dict(id='gp_bool', file=GPF, sig=r'explicit operator bool\(\) const noexcept', c_sig='static _Bool gp_bool(const struct guard* self)', members=['ptr'], methods=GPM, must_fire={'member:ptr': 1}),
+    dict(id='gp_arrow', file=GPF, sig=r'T\* operator->\(\) const noexcept', c_sig='static uintptr_t gp_arrow(const struct guard* self)', members=['ptr'], methods=GPM, must_fire={'method:get': 1}),
+    dict(id='gp_deref', file=GPF, sig=r'T& operator\*\(\) const noexcept', c_sig='static uintptr_t gp_deref(const struct guard* self)', members=['ptr'], methods=GPM, pre_subst=[(r'return \*ptr;', 'return MP_deref(ptr);', 'mp_deref')], must_fire={'subst:mp_deref': 1}),
     dict(id='ctor', file=CP, sig=r'concurrent_ptr\(const marked_ptr& p = marked_ptr\(\)\) noexcept', ctor=True,
          c_sig='static void cp_ctor(struct cptr* self, mptr p)', must_fire={'ctor_init': 1}),
     dict(id='load', file=CP, sig=r'marked_ptr load\(std::memory_order order = std::memory_order_\w+\) const', members=['_ptr'],
@@ -49,7 +57,7 @@ UNIT = dict(
     dict(id='store', file=CP, sig=r'void store\(const marked_ptr& src, std::memory_order order = std::memory_order_\w+\)', members=['_ptr'],
          c_sig='static void cp_store(struct cptr* self, mptr src, int order)', must_fire={'member:_ptr': 1}),
     dict(id='store_guard', file=CP, sig=r'void store\(const guard_ptr& src, std::memory_order order = std::memory_order_\w+\)', members=['_ptr'],
-         methods={'get': 'G_get'},
+         methods={'get': 'G_get'},   # G_get = the real guard_ptr::get (gp_get), counted
          c_sig='static void cp_store_guard(struct cptr* self, struct guard src, int order)', must_fire={'member:_ptr': 1}),
     CAS('cew3', 'compare_exchange_weak', A3, 0, 'A_CASW'), CAS('cew3v', 'compare_exchange_weak', A3, 1, 'A_CASW'),
     CAS('cew4', 'compare_exchange_weak', A4, 0, 'A_CASW'), CAS('cew4v', 'compare_exchange_weak', A4, 1, 'A_CASW'),
@@ -61,19 +69,21 @@ UNIT = dict(
     dict(id='load', entry='h_load', cls='unbounded'),
     dict(id='store', entry='h_store', cls='unbounded'),
     dict(id='store_guard', entry='h_store_guard', cls='unbounded'),
+    dict(id='gp_base', entry='h_gp_base', cls='unbounded', note='accessors of the guard_ptr base class, every word, mark widths 0..3'),
     dict(id='cas', entry='h_cas', cls='unbounded', note='all eight compare_exchange overloads (nondeterministic choice), all cell/expected/desired words, all orders'),
   ],
   obligations={
     'cptr.ctor.init': dict(deciding=True, text='concurrent_ptr(p) initialises the atomic with p; the default argument is the default constructed marked_ptr'),
     'cptr.load.forwards': dict(deciding=True, text='load(o) performs exactly one atomic load of _ptr with order o and returns its value; nothing is written'),
     'cptr.store.forwards': dict(deciding=True, text='store(v, o) performs exactly one atomic store of v to _ptr with order o'),
-    'cptr.store_guard.forwards': dict(deciding=True, text='store(guard, o) performs exactly one atomic store of guard.get() with order o (get() called once)'),
+    'cptr.store_guard.forwards': dict(deciding=True, text='store(guard, o) performs exactly one atomic store of guard.get() - the pointer the guard holds, mark bits cleared - with order o (get() called once)'),
+    'gp.base.accessors': dict(deciding=True, text='guard_ptr::get()/operator-> return the pointer part of the guarded marked_ptr, mark() its mark, the conversion the marked_ptr itself, operator bool is true iff pointer or mark is non-zero, operator* names the object get() points to; none of them changes the guard'),
     'cptr.cas.forwards': dict(deciding=True, text='each compare_exchange_weak/strong overload performs exactly one compare_exchange of the same strength on _ptr with the caller\'s expected object (by reference), desired value, and the given order(s): one order for the 3-argument forms (the atomic derives the failure order), success and failure in this sequence for the 4-argument forms'),
     'cptr.cas.result': dict(deciding=True, text='the result is the atomic\'s result; on success _ptr == desired and expected is unchanged; on failure _ptr is unchanged and expected holds the value of _ptr'),
     'cptr.defaults.seq_cst': dict(deciding=True, text='every defaulted memory order argument is std::memory_order_seq_cst, as for std::atomic'),
   },
   replays={k: dict(src='replay_cptr.cpp') for k in ['cptr.ctor.init', 'cptr.load.forwards', 'cptr.store.forwards', 'cptr.store_guard.forwards', 'cptr.cas.forwards', 'cptr.cas.result', 'cptr.defaults.seq_cst']},
-  canaries=['ctor.reached', 'load.reached', 'store.reached', 'store_guard.reached',
+  canaries=['gp_base.marked_null', 'gp_base.nonnull', 'gp_base.null', 'ctor.reached', 'load.reached', 'store.reached', 'store_guard.reached',
             'cas.cew3.ok', 'cas.cew3.fail', 'cas.cew3v.ok', 'cas.cew3v.fail', 'cas.cew4.ok', 'cas.cew4.fail', 'cas.cew4v.ok', 'cas.cew4v.fail',
             'cas.ces3.ok', 'cas.ces3.fail', 'cas.ces3v.ok', 'cas.ces3v.fail', 'cas.ces4.ok', 'cas.ces4.fail', 'cas.ces4v.ok', 'cas.ces4v.fail',
             'cas.weak.spurious', 'cas.orders_differ'],
